@@ -70,8 +70,14 @@ def run_property(pid, rules, repo, tier, explanation, assumptions, extra=None, r
     """Run the rules, print the protocol lines, write evidence, return exit status."""
     t0 = time.time()
     results = []
+    analysis_errors = []
     for rule in rules:
-        res = rule(repo)
+        try:
+            res = rule(repo)
+        except AnalysisError as e:
+            # one rule that cannot be carried out must not hide what the other rules find
+            analysis_errors.append(f"{getattr(rule, '__name__', rule)}: {e}")
+            continue
         if isinstance(res, RuleResult):
             res = [res]
         results.extend(res)
@@ -146,4 +152,9 @@ def run_property(pid, rules, repo, tier, explanation, assumptions, extra=None, r
         os.makedirs(os.path.join(VERIF, 'evidence'), exist_ok=True)
         with open(os.path.join(VERIF, 'evidence', f'{pid}.json'), 'w') as fh:
             json.dump(ev, fh, indent=1)
+    if analysis_errors and not violations:
+        raise AnalysisError(' || '.join(analysis_errors))
+    if analysis_errors and not quiet:
+        for e in analysis_errors:
+            print(f"[{pid}] (also) ANALYSIS-ERROR in {e}")
     return (1 if violations else 0), results, violations
